@@ -142,7 +142,36 @@ def check(ck):
                 ck.fail("keyword-names-in-key-and-index-lists", key, "c06:keyword-shaped-name-in-key-or-index-list", dict(ddl=ddl2, observed=r2, expected="primary_key ['a', %r], index columns [%r, 'c']" % (spell, spell)))
             else:
                 ck.ok("keyword-names-in-key-and-index-lists", key)
+    # (iii) keyword-shaped names of sequences and of their schema (every keyword except the sequence option words themselves)
+    from simple_ddl_parser import tokens as _tok
+    seq_words = set(getattr(_tok, "sequence_reserved", {}))
+    for wi, w in enumerate(kws):
+        if w in seq_words:
+            continue
+        for spell in (w.lower(), w.upper()):
+            for form, ddl, exp in (("name", "CREATE SEQUENCE %s START 1;" % spell, (None, spell)), ("schema", "CREATE SEQUENCE %s.sq1 INCREMENT BY 2;" % spell, (spell, "sq1")),
+                                   ("name-after-schema", "CREATE SEQUENCE s1.%s START WITH 5;" % spell, ("s1", spell))):
+                r = parse(ddl)
+                got = [(e.get("schema"), e.get("sequence_name")) for e in r[1] if isinstance(e, dict) and "sequence_name" in e] if r[0] == "ok" else r
+                if got != [exp]:
+                    ck.fail("keyword-sequence-names", (w, spell, form), "c06:keyword-shaped-sequence-name-not-verbatim", dict(ddl=ddl, observed=got, expected=[exp]))
+                else:
+                    ck.ok("keyword-sequence-names", (w, spell, form))
+    # (iv) a word the grammar has no rule for after the column list does not become a name
+    for word in ("NOLOGGING", "COMPRESS", "STRICT", "nologging"):
+        for tname, cols in (("users", ["id", "b"]), ('"Tbl"', ['"Id"', "b"]), ("[T1]", ["[a_b]", "c"])):
+            for pk in ("", ", PRIMARY KEY (%s)" % cols[0]):
+                ddl = "CREATE TABLE %s (%s int, %s varchar(5)%s) %s;" % (tname, cols[0], cols[1], pk, word)
+                for norm in (False, True):
+                    r = parse(ddl, ctor=dict(normalize_names=norm))
+                    strip = (lambda s: s[1:-1] if norm and s[0] in '"[`' else s)
+                    exp = (None, strip(tname), [strip(c) for c in cols])
+                    got = [(e.get("schema"), e.get("table_name"), [c["name"] for c in e.get("columns", [])]) for e in r[1] if isinstance(e, dict) and "table_name" in e] if r[0] == "ok" else r
+                    if got != [exp]:
+                        ck.fail("unknown-trailing-word", (word, tname, bool(pk), norm), "c06:unknown-trailing-word-becomes-a-name", dict(ddl=ddl, ctor=dict(normalize_names=norm), observed=got, expected=[exp]))
+                    else:
+                        ck.ok("unknown-trailing-word", (word, tname, bool(pk), norm))
     return ("thirteen naming positions (schema, table, three columns, referenced schema / table / column, constraint, index, ALTER constraint, sequence schema / name) filled from %d identifier forms; "
             "contract: every identifier verbatim, normalize_names result == plain result with each identifier minus its one delimiter pair; keyword-shaped column names (every keyword of tokens.py except the "
-            "clause-opening words) in definitions, PRIMARY KEY and index lists" % len(FORMS),
+            "clause-opening words) in definitions, PRIMARY KEY and index lists; keyword-shaped sequence / sequence-schema names; a single unknown word after the column list" % len(FORMS),
             "%d rotations of forms through positions; %d keywords x %d spellings x 2 scripts" % (n_rot, len(kws), 2 if ck.quick() else 3))
